@@ -317,7 +317,7 @@ type Node struct {
 	// PropDeadline is the deadline (simulated time) of the context with which
 	// the node answered the latest incoming proposal.
 	PropDeadline time.Duration
-	UpdatesIn   int
+	UpdatesIn    int
 	// OnAdjEvent is called for every adjudicator event relayed by Channel.Watch.
 	OnAdjEvent func(ch *client.Channel, e channel.AdjudicatorEvent)
 	// NextAccNonce, if set, keys the nonce share of the next accepted proposal.
@@ -328,8 +328,8 @@ type Node struct {
 	// UpdateBegan records when the handling of an incoming update began here
 	// (the user's handler was invoked), keyed by channel and version.
 	UpdateBegan map[string]time.Duration
-	handleDone   chan struct{}
-	CtxTimeout   time.Duration
+	handleDone  chan struct{}
+	CtxTimeout  time.Duration
 	// UpdateCtxMax > 0: update handlers answer with a context of 0..UpdateCtxMax.
 	UpdateCtxMax time.Duration
 }
